@@ -44,7 +44,20 @@ RNamed == { Rec(<< Field("f", x), Field("g", P("int8")) >>) : x \in {E3, F3, Ali
           \cup { Vec(Rec(<< Field("f", E3), Field("g", F3) >>)), Opt(Rec(<< Field("h", Alias(P("string"))) >>)),
                  Alias(Rec(<< Field("f", E3), Field("g", P("int8")) >>)), Alias(Rec(<< Field("p", F3), Field("q", Alias(P("int32"))) >>)),
                  Alias(Vec(Rec(<< Field("f", EU8) >>))) }
-NamedTypes == RNamed \cup PodContainers \cup { RGenU, Vec(RGenU), RPod, RPod2, E3, EU8, EI64, F3, FU64, R2, ROpt, REmpty, Alias(P("int32")), Alias(P("string")), Alias(Vec(P("float32"))) }
+RECURSIVE IsUnionishT(_)
+IsUnionishT(t) == t.k \in {"opt", "union"} \/ (t.k = "alias" /\ IsUnionishT(t.t))
+\* every shape behind a named alias, at the places where a generator may look at the written type instead of the type the alias
+\* stands for: record field, vector item, map value, alias of the alias, array item, union case, optional
+AliasedShapes == { Opt(P("int32")), Opt(P("string")), Union(<<Case("int32", P("int32")), Case("string", P("string"))>>, TRUE),
+                   Union(<<Case("int32", P("int32")), Case("string", P("string"))>>, FALSE), Vec(P("int32")), FVec(P("float32"), 2),
+                   NdArr(P("int32"), 2), DynArr(P("float32")), FArr(P("int32"), <<2, 2>>), Map(P("string"), P("int32")), E3, F3, R2, Opt(R2),
+                   Vec(Opt(P("int32"))), P("date"), P("complexfloat32") }
+AliasedAt == UNION { { Rec(<< Field("a", P("int32")), Field("f", Alias(s)), Field("z", P("int8")) >>),
+                       Rec(<< Field("f", Alias(Alias(s))), Field("g", Alias(s)) >>),
+                       Vec(Alias(s)), Map(P("string"), Alias(s)), Alias(Alias(s)), FVec(Alias(s), 2) } : s \in AliasedShapes }
+             \cup UNION { { Opt(Alias(s)), Union(<<Case("al", Alias(s)), Case("bool", P("bool"))>>, TRUE), NdArr(Alias(s), 1),
+                            Rec(<< Field("o", Opt(Alias(s))), Field("v", Vec(Alias(s))) >>) } : s \in { x \in AliasedShapes : ~IsUnionishT(x) } }
+NamedTypes == RNamed \cup PodContainers \cup AliasedAt \cup { RGenU, Vec(RGenU), RPod, RPod2, E3, EU8, EI64, F3, FU64, R2, ROpt, REmpty, Alias(P("int32")), Alias(P("string")), Alias(Vec(P("float32"))) }
 
 KeyTypes == { P("string"), P("int32"), P("uint64"), P("int8"), Alias(P("string")) }
 
